@@ -4141,7 +4141,11 @@ xpath_deref(struct lyxp_set **args, uint32_t UNUSED(arg_count), struct lyxp_set 
                 /* find leafref target */
                 r = lyplg_type_resolve_leafref((struct lysc_type_leafref *)sleaf->type, &leaf->node, &leaf->value, set->tree,
                         &targets, &errmsg);
-                if (r) {
+                if (r == LY_ENOTFOUND) {
+                    /* no target instance, the result is an empty node set */
+                    free(errmsg);
+                    goto cleanup;
+                } else if (r) {
                     LOGERR(set->ctx, LY_EINVAL, "%s", errmsg);
                     free(errmsg);
                     ret = LY_EINVAL;
